@@ -589,7 +589,7 @@ printf("debug> macros_parse() name_test='%s' %d\n", name_test, index);
 printf("debug> Adding macro '%s'\n", macro);
 #endif
 
-  macros_append(asm_context, name, macro, param_count);
+  if (macros_append(asm_context, name, macro, param_count) != 0) { return -1; }
 
   return 0;
 }
